@@ -6,18 +6,18 @@ CONSTANTS EmitTrans, EmitAt      \* EmitAt > 0: print the whole history when it 
 VARIABLES hist,
           regen       \* has prepareAll() replaced computed operators of the container? (the statuses alone do not tell:
                       \* the transitions out of such a state are explored separately, seeded change C10-c)
-MCInit == Init /\ hist = <<>> /\ regen = FALSE
+MCInit == Init /\ hist = <<>> /\ regen = [o \in Regressing |-> FALSE]
 MCNext == /\ Next
           /\ hist' = Append(hist, <<last'.obj, last'.op>>)
-          /\ regen' = (regen \/ st'["OPS"] < st["OPS"])
+          /\ regen' = [o \in Regressing |-> regen[o] \/ st'[o] < st[o]]
           /\ EmitTrans => PrintT("@@PV " \o ToJson([pre |-> hist, obj |-> last'.obj, op |-> last'.op, doc |-> Documented(st, last'.obj, last'.op)]))
           /\ (EmitAt > 0 /\ Len(hist') = EmitAt) => PrintT("@@PV " \o ToJson([hist |-> hist']))
 mcvars == <<vars, hist, regen>>
 MCSpec == MCInit /\ [][MCNext]_mcvars
 View == <<st, regen>>
-MonotoneA == [][\A o \in Objs \ {"OPS"} : st'[o] >= st[o]]_mcvars
-RegressA == [][st'["OPS"] < st["OPS"] => last'.obj = "OPS" /\ last'.op = "prepare"]_mcvars
+MonotoneA == [][\A o \in Objs \ Regressing : st'[o] >= st[o]]_mcvars
+RegressA == [][\A o \in Regressing : st'[o] < st[o] => last'.obj = o /\ last'.op = "prepare"]_mcvars
 OnlyOwnDataA == [][last'.changed \subseteq {last'.obj}]_mcvars
-ComputedOnceA == [][\A o \in Objs \ {"OPS"} : st[o] = Final[o] => o \notin last'.changed]_mcvars
+ComputedOnceA == [][\A o \in Objs \ Regressing : st[o] = Final[o] => o \notin last'.changed]_mcvars
 GetIffFinishedA == [][last'.op = "get" => (last'.out = "ok" <=> st[last'.obj] = Final[last'.obj])]_mcvars
 =============================================================================
